@@ -162,6 +162,35 @@ def main() -> int:
     bad = byte_check(rep, pairs, "relayout", "C02")
     if bad:
         raise common.MachineryError("relayout is not behaviour preserving on the model: " + json.dumps(bad[0][1:]) + json.dumps(fmt(rel[bad[0][0]]["of"])) + json.dumps(fmt(rel[bad[0][0]]["routines"])))
+    # first step of the decompiler against its specification (CompilerPipeline.tla, Mode = "resolver"): offsets -> labels must refine
+    # the input.  As in C01 the verdict about C02 stays with the two products below; a resolver step that does not refine is named
+    # in the evidence (and would show in nearly every product as well).
+    from vf import pipeline
+    sample = [c for c in cases if c["origin"] in ("special", "exhaustive")][:: (1 if thorough else 5)] + \
+             [c for c in cases if c["origin"] not in ("special", "exhaustive", "relayout")][:: (1 if thorough else 3)]
+    staged = [r for r in pmap(pipeline.staged_resolve, sample, limit=10.0) if r.get("complete")]
+    rbad, rtot = pipeline.tlc_check_resolver(staged, "main")
+    rep.states += rtot["distinct"]
+    rep.transitions += rtot["states"]
+    rmuts = []
+    for r in staged:
+        labels = sorted({o["lbl"] for rt in r["D1"] for o in rt if o["k"] == "label"})
+        tests = [(i, j) for i, rt in enumerate(r["D1"]) for j, o in enumerate(rt) if o["k"] == "ljump" and o["op"] != "Jump"]
+        if len(labels) >= 2 and tests:
+            m = json.loads(json.dumps({"D0": r["D0"], "D1": r["D1"]}))
+            i, j = tests[0]
+            m["D1"][i][j]["lbl"] = next(x for x in labels if x != m["D1"][i][j]["lbl"])
+            rmuts.append(m)
+        if len(rmuts) >= 6:
+            break
+    if rmuts:
+        g2, _ = pipeline.tlc_check_resolver(rmuts, "selftest")
+        # retargeting is only observable when the two labels lead to different behaviour; at least one of the corruptions must be seen
+        if not g2:
+            raise common.MachineryError("resolver self-test: no retargeted label jump was rejected")
+    rep.extra["resolver_stage"] = {"inputs_staged": len(staged), "not_refining": len(rbad),
+                                   "examples": [{"input": fmt(staged[i]["routines"]), "verdicts": v} for i, v in list(rbad.items())[:3]],
+                                   "selftest_corruptions": len(rmuts)}
     recs = run_decompile(cases)
     n_struct = check_structured(rep, recs)
     outcomes = {}
